@@ -110,6 +110,18 @@ REGISTRY = {
         'assumptions': ['classic CAN (DLC <= 8)', 'crate j1939 spn decoders are total on 8-byte payloads'],
         'trusted': ['modelled, not verified: Rust slice/array conversion panic conditions; crate j1939 0.1.33 Id accessors and spn decoders'],
     },
+    'C08': {
+        'rule': 'real VolvoD7E (try_recv with real EEC1 frames, trigger, tick, real clock): all histories of length <=3 (quick) / <=4 (thorough) over a 12-letter alphabet {tick, EEC1 status classes (rpm 0/300/800/3000 without starter mode, starter active, start finished, inhibited/reserved/error nibbles), engine commands (rpm 0/500/1500/5000 x 4 states), shutdown command, run command, non-engine command} each followed by a tick; random histories of length 4..60 (4k quick / 40k thorough); '
+                'timed histories with one real 2100 ms wait past the transition timeout (32 quick / 600 thorough); the speed byte for every commanded rpm 0..65535 (every 7th in quick); frames of every event vs extracted model, C08 predicate evaluated on the real frames; non-trivial = engine command followed by a tick; distinct by case text',
+        'exhaustive': {'quick': False, 'thorough': False},
+        'level_text': 'Theorem C08 proves by induction over histories of ANY length (all EEC1 payloads, all commands, all waits) that every frame the Volvo driver emits is well formed, equals the governor decision for the latest status and latest command, honours shutdown (shutdown code while running, never a start code after a shutdown command) and bounds cranking by the transition timeout; C08_same_meaning and C08_governor_envelope support it. '
+                      'The model reflects fixes 7af8f4f and 00d4665 (both found by this check). Tied to the real driver by differential execution incl. real-time waits.',
+        'level_note': 'partial on schedules: trigger/tick read rx_last and tx_last in separate critical sections; the theorem is over handler-sequential histories, and the real code is driven at handler granularity. The abstract clock is tied to Instant by the timed histories only (2100 ms vs 2000 ms timeout). Trusted: kernel, extraction, drv.ml, harness.',
+        'technique': 'Rocq proof (invariant linking driver state to a history summary, by induction; governor envelope by case analysis) + correspondence on enumerated, random and timed histories',
+        'explanation': 'C08, C08_same_meaning, C08_governor_envelope',
+        'assumptions': ['commands are handed to the driver through trigger (as the authority does)', 'time between un-waited events is far below the 2000 ms timeout'],
+        'trusted': ['modelled, not verified: std::time::Instant as a monotone millisecond clock; (rpm as f32 / 10.0) as u8 as saturating integer division'],
+    },
     'C11': {
         'rule': 'every driver kind x 3 address configurations x 34 parameter groups x destination classes {unit, daemon, 0xFF, other} x ALL 256 source addresses (first configuration complete in quick, all in thorough), real try_recv on a fresh context: rx_count, rx_last_message and the signals are observed and compared with the extracted model; the C11 predicate (credited => source = unit; signals name the unit; addressed elsewhere / Request => nothing changes) is evaluated on the real observation; '
                 'non-trivial = frame whose source is the unit; distinct by case text',
